@@ -122,13 +122,15 @@ impl<'a> W<'a> {
         if self.mode != 0 {
             return;
         }
-        match self.ch.pick(6) {
+        match self.ch.pick(8) {
             0 => {}
             1 => self.out.push(' '),
             2 => self.out.push('\n'),
             3 => self.out.push('\t'),
             4 => self.out.push_str("\r\n"),
-            _ => self.out.push_str("\n  "),
+            5 => self.out.push_str("\n  "),
+            6 => self.out.push_str("\t "),
+            _ => self.out.push_str(" \t"),
         }
     }
     fn nl(&mut self) {
@@ -257,6 +259,18 @@ pub fn eval(j: &J, ch: &mut Ch, acc: &mut Acc) {
     acc.evals += 1;
     let want = expect(j);
     let case = || json!({"kind": "json", "value": j_json(j), "choices": ch.taken(), "text": text});
+    // the same text through StrInput must load identically
+    {
+        use saphyr::LoadableYamlNode;
+        let via_str = std::panic::catch_unwind(std::panic::AssertUnwindSafe(|| saphyr::Yaml::load_from_parser(&mut saphyr_parser::Parser::new_from_str(&text)).map(|d| d.iter().map(canon_yaml).collect::<Vec<_>>()).map_err(|e| e.info().to_string())));
+        match via_str {
+            Ok(Ok(d)) if d.len() == 1 && d[0] == want => {}
+            other => {
+                let ws = if text.contains('\t') { "tab" } else if text.contains('\r') { "crlf" } else if text.contains('\n') { "lf" } else { "none" };
+                acc.violation(Violation { key: format!("json-via-strinput ws={ws} ok={}", matches!(other, Ok(Ok(_)))), expected: format!("{want:?}"), observed: format!("{other:?}"), case: case(), size: text.len() });
+            }
+        }
+    }
     match load_canon(&text, NodeType::Yaml) {
         Err(m) => acc.violation(Violation { key: "panic".into(), expected: format!("{want:?}"), observed: format!("panic: {m}"), case: case(), size: text.len() }),
         Ok(Err(e)) => {
@@ -306,7 +320,7 @@ pub fn replay(case: &Value) -> Result<Acc, String> {
 
 pub fn check(tier: Tier) -> i32 {
     let mut rep = Report::new("C13", tier, "model_checking");
-    rep.rule = "abstract values: every JSON value of <= s nodes over leaves {null, true, false, 9 boundary numbers, 6 strings} (arrays, objects with distinct keys incl. empty and quoted-quote keys), and every string of length <= 3 over 17 hostile symbols (indicators, escapes \\\" \\\\ \\/ \\n \\t \\u00e9, non-ASCII) as array item, object key and object value; serialisation: a choice among {nothing, space, LF, tab, CRLF, LF+indent} at EVERY token boundary (all vectors with <= d deviations) plus three pretty-printers (indent 2, indent 4, tab); oracle: Yaml::load_from_str gives exactly one document equal to the JSON value (objects -> ordered mappings with string keys, integers that fit i64 -> Integer, other numbers -> Float of the same value, escapes decoded). Non-trivial: every serialisation; distinct: distinct texts.".into();
+    rep.rule = "abstract values: every JSON value of <= s nodes over leaves {null, true, false, 9 boundary numbers, 6 strings} (arrays, objects with distinct keys incl. empty and quoted-quote keys), and every string of length <= 3 over 17 hostile symbols (indicators, escapes \\\" \\\\ \\/ \\n \\t \\u00e9, non-ASCII) as array item, object key and object value; serialisation: a choice among {nothing, space, LF, tab, CRLF, LF+indent, tab+space, space+tab} at EVERY token boundary (all vectors with <= d deviations) plus three pretty-printers (indent 2, indent 4, tab); oracle: Yaml::load_from_str gives exactly one document equal to the JSON value (objects -> ordered mappings with string keys, integers that fit i64 -> Integer, other numbers -> Float of the same value, escapes decoded). Non-trivial: every serialisation; distinct: distinct texts.".into();
     rep.assumptions = vec!["number values: std's str::parse::<f64> of the JSON number text".into(), "objects have no duplicate keys; nesting stays far below the flow-depth limit; no surrogate \\u escapes".into()];
     let budget = Budget::new(wall_cap(tier));
     rep.mandatory_scopes = 2;
@@ -339,6 +353,12 @@ pub fn check(tier: Tier) -> i32 {
         strs.extend(next.iter().cloned());
         frontier = next;
     }
+    // long strings: JSON has no limit on key length or on the blanks around ':'
+    for n in [1023usize, 1024, 1025, 1100, 5000] {
+        let k = "k".repeat(n);
+        strs.push((k.clone(), k));
+    }
+    strs.push((format!("a{}", " ".repeat(1100)), format!("a{}", " ".repeat(1100))));
     let ds = if tier == Tier::Quick { 1 } else { 2 };
     let (acc, done) = par_blocks(strs.len() as u64, &budget, |b, acc| {
         let (sp, dec) = &strs[b as usize];
